@@ -10,10 +10,12 @@
    i.e. the interpreter of ArgDSL.v, run on the translated body, finishes
    inside the modelled fragment within the call depth (ODone) with the result
    AND the new state of the hand-written operation.  `run_*` restate this for
-   run_meth (call depth 8); gen_step_ok for every operation of Args.m_step
-   except membership (`__contains__` is not translated); gen_session_ok for
-   TexArgs(init) followed by ANY sequence of translated operations;
-   gen_session_refines transfers C18_refines_args.
+   run_meth (call depth 8); gen_contains_ok: the translated __contains__ returns
+   Args.m_contains; gen_str_ok: the translated __str__ returns Args.m_str (both
+   leave the state unchanged); gen_step_ok for every operation of Args.m_step
+   except membership, gen_step_all_ok for every operation; gen_session_ok /
+   gen_session_all_ok for TexArgs(init) followed by ANY sequence of operations;
+   gen_session_refines(_all) transfers C18_refines_args.  __repr__ is not translated.
 
    The proofs compute with the generated terms, so a change of a method body
    that changes the generated term makes the lemma named after the method
@@ -60,7 +62,7 @@ Ltac ev :=
        finish fst snd bind_params option_map m_params m_body set_var int2 bound_of item_of
        value_of_item value_of_arg list_op negb
        gen_a_cls gen_a_init gen_a_coerce gen_a_append gen_a_extend gen_a_insert gen_a_remove
-       gen_a_pop gen_a_reverse gen_a_clear gen_a_getitem gen_a_parse].
+       gen_a_pop gen_a_reverse gen_a_clear gen_a_getitem gen_a_parse gen_a_contains gen_a_str].
 
 Ltac enter := rewrite call_S; ev.
 
@@ -300,6 +302,53 @@ Proof.
   destruct o; try contradiction; reflexivity.
 Qed.
 
+(* ------------------------------------------------- __contains__, __str__ *)
+
+Lemma map_opt_map {A B C} (f : B -> option C) (g : A -> B) (h : A -> C) :
+  (forall a, f (g a) = Some (h a)) -> forall l, map_opt f (map g l) = Some (map h l).
+Proof.
+  intros H. induction l as [|a l IH]; [reflexivity|].
+  cbn [map map_opt]. rewrite H, IH. reflexivity.
+Qed.
+
+Lemma existsb_id_map {A} (f : A -> bool) l : existsb (fun b => b) (map f l) = existsb f l.
+Proof. induction l as [|a l IH]; [reflexivity|]. cbn [map existsb]. rewrite IH. reflexivity. Qed.
+
+Lemma join_with_nil : forall l a, fold_left (fun acc s => acc ++ s) l a = a ++ join_with [] l.
+Proof.
+  induction l as [|p t IH]; intros a; [cbn; rewrite app_nil_r; reflexivity|].
+  cbn [fold_left]. rewrite IH. destruct t as [|q t'].
+  - cbn. rewrite app_nil_r. reflexivity.
+  - cbn [join_with app]. rewrite app_assoc. reflexivity.
+Qed.
+
+Lemma gen_contains_ok n st a :
+  call (S n) gen_a_cls M_contains [value_of_arg a] st = ODone st (RVal (VBool (m_contains st a))).
+Proof.
+  enter. destruct st as [lst all]. destruct a as [g|s]; ev.
+  - reflexivity.
+  - cbn [comp_elems fst].
+    (* `item == arg.string` or `arg.string == item`: the equality is symmetric *)
+    rewrite (map_opt_map _ VGroup (fun g => VBool (pstr_eqb s (snd g))))
+      by (intros g; first [reflexivity
+                          | cbn [peval lookup nth_error item_of]; unfold item_eqb; cbn [render_item];
+                            rewrite pstr_eqb_sym; reflexivity]).
+    cbn [option_map]. ev.
+    rewrite (map_opt_map bool_of _ (fun g : group => pstr_eqb s (snd g))) by (intros g; reflexivity).
+    cbn [option_map]. ev. rewrite existsb_id_map. reflexivity.
+Qed.
+
+Lemma gen_str_ok n st :
+  call (S n) gen_a_cls M_str [] st = ODone st (RVal (VStr (m_str st))).
+Proof.
+  enter. destruct st as [lst all]. cbn [comp_elems fst].
+  rewrite (map_opt_map _ VGroup (fun g => VStr (render g))) by (intros g; reflexivity).
+  cbn [option_map]. ev.
+  rewrite (map_opt_map str_of _ render) by (intros g; reflexivity).
+  cbn [option_map]. ev. unfold m_str, py_join. cbn [fst].
+  rewrite join_with_nil. reflexivity.
+Qed.
+
 (* ====================================================================== *)
 (* run_meth, all operations, sequences                                     *)
 (* ====================================================================== *)
@@ -335,6 +384,12 @@ Lemma run_getitem_slice st lo hi :
   run_meth gen_a_cls M_getitem [VSlice lo hi] st = done (m_step st (OpSlice lo hi)).
 Proof. apply (gen_getitem_slice_ok 1). Qed.
 
+Lemma run_contains st a :
+  run_meth gen_a_cls M_contains [value_of_arg a] st = ODone st (RVal (VBool (m_contains st a))).
+Proof. apply (gen_contains_ok 7). Qed.
+Lemma run_str st : run_meth gen_a_cls M_str [] st = ODone st (RVal (VStr (m_str st))).
+Proof. apply (gen_str_ok 7). Qed.
+
 Definition translated (o : op) : bool :=
   match o with OpContains _ => false | _ => true end.
 
@@ -352,6 +407,12 @@ Proof.
   - apply run_clear.
   - apply run_getitem_int.
   - apply run_getitem_slice.
+Qed.
+
+Lemma gen_step_all_ok st o : gen_step gen_a_cls st o = Some (done (m_step st o)).
+Proof.
+  destruct o as [a|l|i a|a|[i|]| | |i|lo hi|a]; try (apply gen_step_ok; reflexivity).
+  cbn [gen_step m_step]. rewrite run_contains. reflexivity.
 Qed.
 
 Lemma to_of_out o : to_out (of_out o) = Some o.
@@ -384,6 +445,30 @@ Proof.
   rewrite refines_args. reflexivity.
 Qed.
 
+Lemma gen_run_all_ok : forall ops st, gen_run gen_a_cls st ops = Some (m_run st ops).
+Proof.
+  induction ops as [|o t IH]; intros st; [reflexivity|].
+  cbn [gen_run m_run]. rewrite (gen_step_all_ok st o). unfold done.
+  destruct (m_step st o) as [st' x]. cbn [fst snd].
+  rewrite to_of_out, (IH st'). reflexivity.
+Qed.
+
+(* ... membership included *)
+Theorem gen_session_all_ok init ops : snd (m_new init) = ONone ->
+  gen_session gen_a_cls init ops = Some (m_run (fst (m_new init)) ops).
+Proof.
+  intros Hn. unfold gen_session. rewrite run_init. unfold done. rewrite Hn.
+  cbn [of_out]. apply gen_run_all_ok.
+Qed.
+
+Theorem gen_session_refines_all init ops : snd (m_new init) = ONone ->
+  option_map (map obs_model) (gen_session gen_a_cls init ops)
+  = Some (map obs_ref (ref_run (fst (ref_extend [] init)) ops)).
+Proof.
+  intros Hn. rewrite (gen_session_all_ok init ops Hn). cbn [option_map].
+  rewrite refines_args. reflexivity.
+Qed.
+
 (* ------------------------------------------------------------ non-vacuity *)
 Definition ex_gA : group := (false, [97]).
 Definition ex_gB : group := (true, [98]).
@@ -399,4 +484,22 @@ Proof. vm_compute. reflexivity. Qed.
 Example ex_session_value :
   option_map (map (fun r => (fst (fst r), snd r))) (gen_session gen_a_cls ex_init [OpAppend (AS [123; 97]); OpPop None])
   = Some [([ex_gA; ex_gB], ETypeError); ([ex_gA], OVal (IG ex_gB))].
+Proof. vm_compute. reflexivity. Qed.
+Example ex_contains :
+  run_meth gen_a_cls M_contains [VStr [97]] ([ex_gA; ex_gB], [IG ex_gA; IG ex_gB]) =
+    ODone ([ex_gA; ex_gB], [IG ex_gA; IG ex_gB]) (RVal (VBool true)) /\
+  run_meth gen_a_cls M_contains [VStr [123; 97; 125]] ([ex_gA; ex_gB], []) =
+    ODone ([ex_gA; ex_gB], []) (RVal (VBool false)) /\
+  run_meth gen_a_cls M_contains [VGroup (true, [97])] ([ex_gA; ex_gB], []) =
+    ODone ([ex_gA; ex_gB], []) (RVal (VBool false)) /\
+  run_meth gen_a_cls M_contains [VGroup (true, [98])] ([ex_gA; ex_gB], []) =
+    ODone ([ex_gA; ex_gB], []) (RVal (VBool true)).
+Proof. vm_compute. repeat split; reflexivity. Qed.
+Example ex_str :
+  run_meth gen_a_cls M_str [] ([ex_gA; ex_gB], [IG ex_gA; IW [32]; IG ex_gB]) =
+    ODone ([ex_gA; ex_gB], [IG ex_gA; IW [32]; IG ex_gB]) (RVal (VStr [123; 97; 125; 91; 98; 93])).
+Proof. vm_compute. reflexivity. Qed.
+Example ex_session_contains :
+  option_map (map snd) (gen_session gen_a_cls ex_init [OpContains (AS [98]); OpPop None; OpContains (AS [98])])
+  = Some [OBool true; OVal (IG ex_gB); OBool false].
 Proof. vm_compute. reflexivity. Qed.
